@@ -576,6 +576,8 @@ struct UnboundedHarness
       size_t const n = op.n;
       std::byte* p = nullptr;
       bool threw = false, first = true;
+      void const* const node_before = q->_producer;
+      size_t const cap_before = q->_producer->bounded_queue.capacity();
       while (true)
       {
         try
@@ -588,6 +590,14 @@ struct UnboundedHarness
         }
         if (!first) end_wait_attempt();
         if (p || threw || W->abort_exec) break;
+        if (n > g_cfg.maxcap)
+        {
+          // "a record larger than the maximum is rejected with an error" - in every state of the queue; a plain refusal
+          // would leave a blocking caller waiting for room that can never appear
+          fail("oversize-record-refused-without-error", "prepare_write(" + std::to_string(n) + ") returned null instead of throwing although the maximum capacity is " +
+                                                          std::to_string(g_cfg.maxcap) + " (producer buffer: " + std::to_string(cap_before) + " bytes)");
+          return;
+        }
         // refused: growing would exceed the maximum -> the caller blocks until the consumer made room
         first = false;
         if (pending)
@@ -610,6 +620,15 @@ struct UnboundedHarness
       if (n > g_cfg.maxcap)
       {
         fail("oversize-record-accepted", "prepare_write(" + std::to_string(n) + ") granted although max capacity is " + std::to_string(g_cfg.maxcap));
+        return;
+      }
+      if (q->_producer != node_before && q->_producer->bounded_queue.capacity() <= cap_before)
+      {
+        // the queue grows by moving the producer to a LARGER buffer; at the maximum the reservation has to fail instead.
+        // Linking one more buffer of the same (or a smaller) size lets the memory of a queue whose consumer lags grow
+        // without bound while every single buffer stays within the maximum
+        fail("grew-without-a-larger-buffer", "prepare_write(" + std::to_string(n) + ") moved the producer from a buffer of " + std::to_string(cap_before) +
+                                               " bytes to another one of " + std::to_string(q->_producer->bounded_queue.capacity()) + " bytes (maximum " + std::to_string(g_cfg.maxcap) + ")");
         return;
       }
       if (q->_producer->bounded_queue.capacity() > g_cfg.maxcap && quill::detail::is_power_of_two(g_cfg.maxcap))
